@@ -16,7 +16,7 @@ let () =
       let t = List.fold_left (fun t (n, v) -> define t (explode n) (explode v)) [] (List.rev !defs) in
       (match sub with
        | "expand" ->
-           List.iter (fun l -> print_string "O "; print_endline (implode (expand t (explode l)))) (List.rev !lines)
+           List.iter (fun l -> print_string "O "; print_endline (implode (fst (expand t (explode l))))) (List.rev !lines)
        | _ ->
            let c = process t (explode !file) (List.map explode (List.rev !lines)) in
            List.iter (fun l -> print_string "O "; print_endline (implode l)) c.outp;
